@@ -206,10 +206,10 @@ def tnz_inc(T):
 
 
 def translate_unbounded_groups(tag, tier):
-    lay = [(8, 2), (2, 3), (3, 5), (4, 4), (2, 1)] if tier == 'quick' else [(t, b) for (t, b) in ks_layouts() if 2 <= t <= 15 and b <= 8]
+    lay = [(8, 2), (2, 3), (3, 5), (4, 4), (2, 1), (1, 1), (1, 4)] if tier == 'quick' else [(t, b) for (t, b) in ks_layouts() if 1 <= t <= 15 and b <= 8]
     return [Group('%s.translate.unbounded.t=%d.basebit=%d' % (tag, T, B), 'c08_keyswitch.c', 'h_translate_unbounded',
                   extract=[(KS, 'lweKeySwitchTranslate_fromArray')], loops=True, defines={'H_TRANSLATE_U': None, 'VERIF_T': T, 'VERIF_BASEBIT': B},
-                  gen={'tnz.inc': tnz_inc(T)}, unwind=T + 2, timeout=1200, instance={'t': T, 'basebit': B, 'n': 'symbolic'}, replay=('keyswitch', T, min(B, 4), 3))
+                  gen={'tnz.inc': tnz_inc(T)}, unwind=max(T + 2, 5), timeout=1200, instance={'t': T, 'basebit': B, 'n': 'symbolic'}, replay=('keyswitch', T, min(B, 4), 3))
             for (T, B) in lay]
 
 
@@ -820,7 +820,7 @@ PROPS = {
                        'centred truncation error <= 2^-(t*basebit+1), carries and wrap; row messages sum to s_i times the rounded value; lweKeySwitch wiring. '
                        'That the real translate loop subtracts exactly the rows those digits select, through the real 3-level table, is a bounded stand-in in n.',
         'assumptions': STD_ASSUME + [
-            'lweKeySwitchTranslate_fromArray: (a) unbounded in n (loop contracts on both loops) for inputs whose coordinates all equal one symbolic value and whose rows ks[i] all point to one well-formed row block (__CPROVER_array_set gives every index a valid row without a quantifier): indices in bounds, the row of the property digit subtracted once per non-zero digit; lifting to unequal coordinates uses that iteration i only reads a_i and ks[i] -- a syntactic fact, not machine-checked; (b) arbitrary coordinates and the table built by the real constructor: bounded stand-in (n in {1,2,3}(,5)), labelled bounded; layouts with t = 1 or t > 15 only in (b)',
+            'lweKeySwitchTranslate_fromArray: (a) unbounded in n (loop contracts on both loops) for inputs whose coordinates all equal one symbolic value and whose rows ks[i] all point to one well-formed row block (__CPROVER_array_set gives every index a valid row without a quantifier): indices in bounds, the row of the property digit subtracted once per non-zero digit; lifting to unequal coordinates uses that iteration i only reads a_i and ks[i] -- a syntactic fact, not machine-checked; (b) arbitrary coordinates and the table built by the real constructor: bounded stand-in (n in {1,2,3}(,5)), labelled bounded; layouts with t > 15 only in (b)',
             'phase conclusion phase(out) = phase(in) + sum_i s_i(a_i - abar_i) - sum noise(rows used): lemma + induction over n, the induction is not machine-checked',
             'noise statistics with a real noisy key-switching key: not decided (statistical)',
             'lweSubTo is the AVX2 assembly in optimised builds; its scalar body is proved in C14',
